@@ -690,6 +690,10 @@ where
 struct PermitModel {
     holder: Option<usize>,
     queue: std::collections::VecDeque<usize>,
+    /// A waiter that has just been handed the permit: its wake-up comes at once (commit /
+    /// rollback) or from the rollback task of a dropped permit at a timing-dependent moment; the
+    /// harness waits for it before the next scheduling decision.
+    pending_wake: Option<usize>,
 }
 
 impl PermitModel {
@@ -703,6 +707,7 @@ impl PermitModel {
     fn release(&mut self, w: usize) {
         if self.holder == Some(w) {
             self.holder = self.queue.pop_front();
+            self.pending_wake = self.holder;
         } else {
             self.queue.retain(|x| *x != w);
         }
@@ -803,6 +808,13 @@ async fn run_concurrent(cfg: &IngestCfg, sqlite: p2panda_store::SqliteStore) {
     let mut steps = 0u64;
     let mut stall: Option<String> = None;
     loop {
+        let pw = model.borrow_mut().pending_wake.take();
+        if let Some(h) = pw {
+            if ex.is_alive(h) && !ex.wait_for_wake(h).await {
+                stall = Some(format!("ingest{h} was handed the permit but never woken"));
+                break;
+            }
+        }
         match ex.step().await {
             Ok(stepexec::Step::Quiescent) => {
                 // A live activity that has been handed the permit by a dropped one is only waiting
